@@ -71,5 +71,35 @@ CONTRACTS = [
            ("flags", "SOWF() and UNKF() == old(UNKF()) and INITIALISED()")])},
        inst_terms=[I, f"POS_OF({I})"],
        props=["C07", "C06", "C14"]),
+    # ---- small observers and the state part of copy / pickle (C14) ----
+    FN("betterproto.serialized_on_wire", types={"message": "model:rawmsg"}, returns="bool",
+       ensures=[("C06-presence-flag", "result == SOWF_OF(message)"),
+                ("C14-observer-is-pure", "RAWARR_OF(message) == old(RAWARR_OF(message)) and GCARR_OF(message) == old(GCARR_OF(message))"
+                                         " and SOWF_OF(message) == old(SOWF_OF(message)) and UNKF_OF(message) == old(UNKF_OF(message))")],
+       top=["C14-observer-is-pure"], props=["C14", "C06"]),
+    FN("betterproto.which_one_of", types={"message": "model:msg", "group_name": "str"}, returns="any", modifies=["message"],
+       requires=[("well-formed-class", "WF_OF(message) and NAMES_WF_OF(message)"), ("a-group-of-the-class", "group_name != ''"),
+                 ("selection-well-formed", "GCV_OF(message, group_name) == -2 or GCV_OF(message, group_name) == -1 or "
+                                           "(0 <= GCV_OF(message, group_name) < NF and F_group(GCV_OF(message, group_name)) == group_name)")],
+       ensures=[("C07-reports-the-recorded-selection",
+                 "(FNAME_IDX(result[0]) == old(GCV_OF(message, group_name)) and same(result[1], old(VAL_OF(message, GCV_OF(message, group_name)))))"
+                 " if old(GCV_OF(message, group_name)) >= 0 else (result[0] == '' and is_none(result[1]))"),
+                ("C14-observer-leaves-presence-and-selection-alone",
+                 "GCARR_OF(message) == old(GCARR_OF(message)) and SOWF_OF(message) == old(SOWF_OF(message)) and UNKF_OF(message) == old(UNKF_OF(message))")],
+       top=["C07-reports-the-recorded-selection"], props=["C07", "C14"]),
+    FN("betterproto.Message.is_set", types={**RAW, "name": "model:fname"}, returns="bool",
+       requires=[("well-formed-class", "WF() and NAMES_WF()"), ("after-__post_init__", "INITIALISED()"), ("field-name", f"0 <= {N} < NF")],
+       ensures=[("reads-the-raw-slot", f"result == (not (is_none(RAWV({N})) if F_optional({N}) else is_placeholder(RAWV({N}))))"),
+                ("C14-observer-is-pure", "RAWARR() == old(RAWARR()) and GCARR() == old(GCARR()) and SOWF() == old(SOWF()) and UNKF() == old(UNKF())")],
+       top=["C14-observer-is-pure"], props=["C14", "C06"]),
+    FN("betterproto.Message.__copy_state", types={"self": "model:rawmsg", "new": "model:rawmsg"}, returns="any", modifies=["new"],
+       requires=[("initialised", "INITIALISED() and INITIALISED_OF(new)")],
+       ensures=[("C14-copy-keeps-presence", "SOWF_OF(new) == SOWF()"),
+                ("C14-copy-keeps-unknown-fields", "UNKF_OF(new) == UNKF()"),
+                ("C14-copy-keeps-selection", "GCARR_OF(new) == GCARR()"),
+                ("values-from-the-constructor-untouched", "RAWARR_OF(new) == old(RAWARR_OF(new))"),
+                ("C14-original-untouched", "RAWARR() == old(RAWARR()) and GCARR() == old(GCARR()) and SOWF() == old(SOWF()) and UNKF() == old(UNKF())")],
+       top=["C14-copy-keeps-presence", "C14-copy-keeps-unknown-fields", "C14-copy-keeps-selection", "C14-original-untouched"],
+       props=["C14", "C07", "C08"]),
 ]
 EXTRA_CONTRACTS = _m.EXTRA_CONTRACTS + _m.CONTRACTS
